@@ -281,38 +281,6 @@ where
             .as_ref()
             .is_some_and(|existing| existing.state == group_types::GroupState::Active);
 
-        if !already_active {
-            // A user who is invited again after having been removed (or after having left) still
-            // holds the group's stored messages: the last-message pointer goes with them.
-            let mut group = group;
-            if let Some(existing) = existing_group {
-                group.last_message_id = existing.last_message_id;
-                group.last_message_at = existing.last_message_at;
-                group.last_message_processed_at = existing.last_message_processed_at;
-            }
-
-            // Save the pending group
-            self.storage()
-                .save_group(group)
-                .map_err(|e| Error::Group(e.to_string()))?;
-
-            // Save the group relays
-            self.storage()
-                .replace_group_relays(
-                    &mls_group_id,
-                    welcome_preview.nostr_group_data.relays.clone(),
-                )
-                .map_err(|e| Error::Group(e.to_string()))?;
-        }
-
-        let processed_welcome = welcome_types::ProcessedWelcome {
-            wrapper_event_id: *wrapper_event_id,
-            welcome_event_id: rumor_event.id,
-            processed_at: Timestamp::now(),
-            state: welcome_types::ProcessedWelcomeState::Processed,
-            failure_reason: None,
-        };
-
         let welcome = welcome_types::Welcome {
             id: rumor_event_id,
             event: rumor_event.clone(),
@@ -335,19 +303,50 @@ where
                 .image_nonce
                 .map(mdk_storage_traits::Secret::new),
             group_admin_pubkeys: welcome_preview.nostr_group_data.admins,
-            group_relays: welcome_preview.nostr_group_data.relays,
+            group_relays: welcome_preview.nostr_group_data.relays.clone(),
             welcomer: rumor_event.pubkey,
             member_count: welcome_preview.staged_welcome.members().count() as u32,
             state: welcome_types::WelcomeState::Pending,
             wrapper_event_id: *wrapper_event_id,
         };
 
-        self.storage()
-            .save_processed_welcome(processed_welcome)
-            .map_err(|e| Error::Welcome(e.to_string()))?;
-
+        // The welcome goes first: it carries the whole rumor and is the write a storage backend
+        // is most likely to refuse (size limits). Refused here, the call has written nothing.
         self.storage()
             .save_welcome(welcome.clone())
+            .map_err(|e| Error::Welcome(e.to_string()))?;
+
+        if !already_active {
+            // A user who is invited again after having been removed (or after having left) still
+            // holds the group's stored messages: the last-message pointer goes with them.
+            let mut group = group;
+            if let Some(existing) = existing_group {
+                group.last_message_id = existing.last_message_id;
+                group.last_message_at = existing.last_message_at;
+                group.last_message_processed_at = existing.last_message_processed_at;
+            }
+
+            // Save the pending group
+            self.storage()
+                .save_group(group)
+                .map_err(|e| Error::Group(e.to_string()))?;
+
+            // Save the group relays
+            self.storage()
+                .replace_group_relays(&mls_group_id, welcome_preview.nostr_group_data.relays)
+                .map_err(|e| Error::Group(e.to_string()))?;
+        }
+
+        let processed_welcome = welcome_types::ProcessedWelcome {
+            wrapper_event_id: *wrapper_event_id,
+            welcome_event_id: rumor_event.id,
+            processed_at: Timestamp::now(),
+            state: welcome_types::ProcessedWelcomeState::Processed,
+            failure_reason: None,
+        };
+
+        self.storage()
+            .save_processed_welcome(processed_welcome)
             .map_err(|e| Error::Welcome(e.to_string()))?;
 
         Ok(welcome)
